@@ -77,6 +77,12 @@ CLAIMED.update({
                 text="Finite-state, hence exhaustive over all messages of all lengths: TLC steps the table-driven machine (table read from the real module) and the bit-serial reference together on every byte from every reachable checksum (Refines), checks table linearity (=> XOR-linearity by induction; explored directly in thorough), zero-step bijectivity, and on the bit-level syndrome machine that single-bit errors, double-bit errors < 127 apart and bursts <= 7 bits are always detected (period exactly 127). The real crc7() is validated on all one-byte messages, one two-byte message per model transition (32768) and random messages.",
                 tech="TLA+ paired-machine refinement checked exhaustively by TLC on the code's own table; TLC trace validation of the real function"),
 })
+CLAIMED.update({
+    "C09": dict(cat="model_checking", ref="DESIGN.md 4.6, 5/C09",
+                note="Trusted: TLC; the in-process NetworkTables instance; harness/drivers/tun_driver.py, which reaches topics through its own typed publishers / generic reads at the documented path. Owner names are identifiers; NetworkTables-side writes use the topic's own type. Exhaustive runs bounded in behaviour length.",
+                text="specs/Tunable.tla models NetworkTables as a path -> (type, value) map with the documented key construction and type table; TLC checks instance independence (key injectivity), the writeDefault rule and typed topics over every interleaving of NT-side writes (also before set-up), set-up, python writes and reads on several instances (mutations shared_class_entry / default_always_written / the pre-fix raw_getentry caught); generated classes with tunables of all 13 supported type shapes under components/autonomous/robot names are driven by random and TLC-simulated interleavings, and every read (python attribute and independent NetworkTables read: type string and value) is validated by TLC.",
+                tech="TLA+ spec Tunable + TLC exhaustive invariants; TLC batch trace validation; simulated behaviours replayed"),
+})
 
 m = {
     "version": 1,
